@@ -103,7 +103,7 @@ TAGS = frozenset({
     "boolop", "cmp", "tuple", "list", "set", "dict", "fstr", "phi", "ifexp", "comp", "bv", "lambda", "loopvar",
     "carried", "loopout", "mut", "setitem", "setattr", "retphi", "not", "undef", "unknown", "modvar", "in-loop",
     # normal forms (alg.py / rules_kernel.py)
-    "poly", "op", "ifnone", "if", "qsel", "msg", "cap", "tvar", "basevar", "name", "bar", "cat", "seq", "bottom", "fn", "fold", "loopstate",
+    "poly", "op", "ifnone", "if", "qsel", "msg", "cap", "tvar", "basevar", "name", "bar", "cat", "seq", "bottom", "fn", "fold", "loopstate", "rep",
 })
 _STR_SECOND = frozenset({"glob", "func", "class", "param", "modvar", "closure", "loopvar", "carried", "loopout", "unknown"})
 
@@ -406,6 +406,13 @@ class Program:
     def canonical_call(self, f, pargs, kws):
         """Positional arguments of calls to known lcm functions / dataclasses are turned into
         keyword arguments, so that ``g(a, b)`` and ``g(x=a, y=b)`` are the same term."""
+        if (is_term(f) and f[0] == "call" and f[1] == ("glob", "functools.partial") and f[2] and is_term(f[2][0])
+                and f[2][0][0] in ("func", "closure", "glob", "class") and all(k is not None for k, _ in f[3])
+                and all(k is not None for k, _ in kws)):
+            # calling a partial object: partial(g, *a, **k)(*b, **c) == g(*a, *b, **{**k, **c})
+            later = {k for k, _ in kws}
+            merged = tuple(sorted([(k, v) for k, v in f[3] if k not in later] + list(kws), key=lambda kv: kv[0]))
+            return self.canonical_call(f[2][0], tuple(f[2][1:]) + tuple(pargs), merged)
         names = None
         if pargs and not any(p[0] == "star" for p in pargs):
             if f[0] == "func":
@@ -949,6 +956,14 @@ class _Exec:
             if isinstance(s.value, ast.Constant):
                 return "fall", 0  # docstring
             t = self.expr(s.value)
+            if (is_term(t) and t[0] == "call" and t[1] == ("glob", "functools.update_wrapper") and len(t[2]) == 2 and not t[3]
+                    and isinstance(s.value.args[0], ast.Name) and not self.conds):
+                # functools.update_wrapper(w, f)  ==  w = functools.wraps(f)(w)
+                name = s.value.args[0].id
+                v = ("call", ("call", ("glob", "functools.wraps"), (t[2][1],), ()), (t[2][0],), ())
+                self.note(v, s)
+                self.env[name] = v
+                return "fall", 0
             self.fr.effects.append((tuple(self.conds), t, s))
             mc = method_call(t)
             if mc and mc[1] in _MUTATORS:
